@@ -237,6 +237,20 @@ def same_cycle_pos(A, B, tol=1e-9, allow_reflection=False):
     return False
 
 
+def same_cycle_pos_band(A, B, tol=1e-9, band_tol=1.5e-4):
+    """Like same_cycle_pos, B being the model ring: a model corner inside the library's pole-snapping band (|z| > 1 - 1e-8) may be
+    reported at the pole, every other corner must agree to tol (so neighbouring tiny faces at a pole are not confused)."""
+    A, B = np.asarray(A), np.asarray(B)
+    if A.shape != B.shape:
+        return False
+    n = len(A)
+    tb = np.where(np.abs(B[:, 2]) > 1 - 1.01e-8, band_tol, tol)
+    for s in range(n):
+        if np.all(angle(A, np.roll(B, -s, axis=0)) <= np.roll(tb, -s)):
+            return True
+    return False
+
+
 def lon_interval_cover(lons_rad):
     """Shortest circular interval [lo, hi] (lo may exceed hi when wrapping through 0/2pi)
     covering all given longitudes in [0, 2pi).  Returns (lo, hi, width)."""
